@@ -14,3 +14,100 @@ package config
 //@   ensures [rejected] settings != nil ==> (result1 != nil) == (errof(time.ParseDuration(settings.ExecutionMinInterval)) != nil || errof(strconv.ParseInt(settings.ExecutionBurst, 10, 32)) != nil)
 //@   ensures [stored]   settings != nil && result1 == nil ==> result0 != nil && result0.ExecutionMinInterval == time.ParseDuration(settings.ExecutionMinInterval)
 //@        && result0.ExecutionBurst == strconv.ParseInt(settings.ExecutionBurst, 10, 32)
+
+// ---- C10: helpers of the configuration loader ----------------------------------------------------
+
+// number of bindings among cfgs[0..i) named `name`
+//@ specfn nNamed(cfgs []htypes.OnKubernetesEventConfig, name string, i int) int
+//@   axiom i <= 0 ==> result == 0
+//@   axiom i > 0 ==> result == nNamed(cfgs, name, i-1) + ite(cfgs[i-1].BindingName == name, 1, 0)
+
+// C10: includeSnapshotsFrom is accepted iff every name denotes exactly one kubernetes binding
+// (unknown and ambiguous names are rejected).
+//@ func CheckIncludeSnapshots
+//@   prop C10
+//@   modifies nothing
+//@   ensures [accepted] result == nil ==> forall(k, 0, len(includes), nNamed(kubeConfigs, includes[k], len(kubeConfigs)) == 1)
+//@   ensures [rejected] forall(k, 0, len(includes), nNamed(kubeConfigs, includes[k], len(kubeConfigs)) != 1 ==> result != nil)
+//@   loop 1
+//@     invariant 0 <= iter() && iter() <= len(includes)
+//@     invariant forall(k, 0, iter(), nNamed(kubeConfigs, includes[k], len(kubeConfigs)) == 1)
+//@   loop 2
+//@     invariant 0 <= iter() && iter() <= len(kubeConfigs) && bindings >= 0 && bindings == nNamed(kubeConfigs, include, iter())
+//@     invariant iter() == len(kubeConfigs) ==> bindings == nNamed(kubeConfigs, include, len(kubeConfigs))
+//@     invariant forall(k, 0, len(includes), includes[k] == atloop(includes[k]))
+
+// C10: a schedule binding gets the documented defaults: name "schedule", queue "main"; the other
+// fields are taken over as declared.
+//@ func (*HookConfigV1).ConvertSchedule
+//@   prop C10
+//@   modifies nothing
+//@   ensures [no-error]  result1 == nil
+//@   ensures [name]      result0.BindingName == ite(schV1.Name != "", schV1.Name, "schedule")
+//@   ensures [queue]     result0.Queue == ite(schV1.Queue == "", "main", schV1.Queue)
+//@   ensures [copied]    result0.AllowFailure == schV1.AllowFailure && result0.ScheduleEntry.Crontab == schV1.Crontab && result0.IncludeSnapshotsFrom == schV1.IncludeSnapshotsFrom && result0.Group == schV1.Group
+
+// membership in a list of names
+//@ specfn inNames(s []string, x string) bool
+//@   axiom result ==> exists(j, 0, len(s), s[j] == x)
+//@   axiom forall(j, 0, len(s), s[j] == x ==> result)
+
+// C10 (bindings sharing a group receive the snapshots of every kubernetes binding of the group):
+// the merge keeps the declared names in their order and appends every group member that is not
+// already listed, once.
+//@ func MergeArrays
+//@   prop C10
+//@   modifies nothing
+//@   ensures [declared-first]  len(result) >= len(a1) && forall(j, 0, len(a1), result[j] == a1[j])
+//@   ensures [only-from-inputs] forall(j, len(a1), len(result), exists(m, 0, len(a2), a2[m] == result[j]))
+// ([every-member]: every name of a2 occurs in the result - an existential that must be re-established
+// after each append; the solvers do not find the witness, so this part is left to the bounded replay.)
+//@   loop 1
+//@     invariant 0 <= iter() && iter() <= len(a2) && union != nil && fresh(union)
+//@     invariant forall(x, string, has(union, x) ==> union[x] && exists(m, 0, len(a2), a2[m] == x))
+//@   loop 2
+//@     invariant 0 <= iter() && iter() <= len(a1) && union != nil && fresh(union) && fresh(res) && len(res) == iter()
+//@     invariant forall(j, 0, iter(), res[j] == a1[j])
+//@     invariant forall(x, string, has(union, x) && union[x] ==> exists(m, 0, len(a2), a2[m] == x))
+//@   loop 3
+//@     invariant 0 <= iter() && iter() <= len(a2) && union != nil && fresh(union) && fresh(res) && len(res) >= len(a1)
+//@     invariant forall(j, 0, len(a1), res[j] == a1[j])
+//@     invariant forall(j, len(a1), len(res), exists(m, 0, len(a2), a2[m] == res[j]))
+
+//@ pure gopkg.in/robfig/cron.v2.Parse kube_events_manager.FormatLabelSelector
+
+// C10: a schedule binding is rejected iff its crontab does not parse or an includeSnapshotsFrom
+// name does not denote exactly one kubernetes binding.
+//@ func (*HookConfigV1).CheckSchedule
+//@   prop C10
+//@   modifies nothing
+//@   ensures [bad-crontab-rejected]  errof(cron.Parse(schV1.Crontab)) != nil ==> result != nil
+//@   ensures [bad-snapshots-rejected] forall(k, 0, len(schV1.IncludeSnapshotsFrom), nNamed(kubeConfigs, schV1.IncludeSnapshotsFrom[k], len(kubeConfigs)) != 1 ==> result != nil)
+//@   ensures [accepted]              result == nil ==> errof(cron.Parse(schV1.Crontab)) == nil && forall(k, 0, len(schV1.IncludeSnapshotsFrom), nNamed(kubeConfigs, schV1.IncludeSnapshotsFrom[k], len(kubeConfigs)) == 1)
+//@   ensures [valid-accepted]        errof(cron.Parse(schV1.Crontab)) == nil && len(schV1.IncludeSnapshotsFrom) == 0 ==> result == nil
+
+//@ func (*HookConfigV1).CheckConversion
+//@   prop C10
+//@   modifies nothing
+//@   ensures [bad-snapshots-rejected] forall(k, 0, len(cfgV1.IncludeSnapshotsFrom), nNamed(kubeConfigs, cfgV1.IncludeSnapshotsFrom[k], len(kubeConfigs)) != 1 ==> result != nil)
+//@   ensures [accepted]              result == nil ==> forall(k, 0, len(cfgV1.IncludeSnapshotsFrom), nNamed(kubeConfigs, cfgV1.IncludeSnapshotsFrom[k], len(kubeConfigs)) == 1)
+
+// C10: admission bindings get the documented defaults (failure policy, side effects None,
+// timeout 10 s) unless declared; name, group and snapshot list are taken over.
+//@ func convertValidating
+//@   prop C10
+//@   modifies nothing
+//@   ensures [no-error] result1 == nil
+//@   ensures [copied]   result0.BindingName == cfgV1.Name && result0.Group == cfgV1.Group && result0.IncludeSnapshotsFrom == cfgV1.IncludeSnapshotsFrom
+//@   ensures [webhook]  result0.Webhook != nil && fresh(result0.Webhook) && result0.Webhook.ValidatingWebhook != nil && result0.Webhook.ValidatingWebhook.Name == cfgV1.Name && result0.Webhook.ValidatingWebhook.Rules == cfgV1.Rules
+//@   ensures [timeout]  result0.Webhook.ValidatingWebhook.TimeoutSeconds != nil && (cfgV1.TimeoutSeconds != nil ==> result0.Webhook.ValidatingWebhook.TimeoutSeconds == cfgV1.TimeoutSeconds) && (cfgV1.TimeoutSeconds == nil ==> *result0.Webhook.ValidatingWebhook.TimeoutSeconds == 10)
+//@   ensures [side-effects] result0.Webhook.ValidatingWebhook.SideEffects != nil && (cfgV1.SideEffects == nil ==> *result0.Webhook.ValidatingWebhook.SideEffects == v1.SideEffectClassNone)
+//@   ensures [failure-policy] result0.Webhook.ValidatingWebhook.FailurePolicy != nil && (cfgV1.FailurePolicy != nil ==> result0.Webhook.ValidatingWebhook.FailurePolicy == cfgV1.FailurePolicy)
+//@ func convertMutating
+//@   prop C10
+//@   modifies nothing
+//@   ensures [no-error] result1 == nil
+//@   ensures [copied]   result0.BindingName == cfgV1.Name && result0.Group == cfgV1.Group && result0.IncludeSnapshotsFrom == cfgV1.IncludeSnapshotsFrom
+//@   ensures [webhook]  result0.Webhook != nil && fresh(result0.Webhook) && result0.Webhook.MutatingWebhook != nil && result0.Webhook.MutatingWebhook.Name == cfgV1.Name && result0.Webhook.MutatingWebhook.Rules == cfgV1.Rules
+//@   ensures [timeout]  result0.Webhook.MutatingWebhook.TimeoutSeconds != nil && (cfgV1.TimeoutSeconds == nil ==> *result0.Webhook.MutatingWebhook.TimeoutSeconds == 10)
+//@   ensures [failure-policy] result0.Webhook.MutatingWebhook.FailurePolicy != nil && (cfgV1.FailurePolicy == nil ==> *result0.Webhook.MutatingWebhook.FailurePolicy == v1.Fail)
